@@ -40,8 +40,10 @@ def run(ctx):
              '{#1}', '{#3}', '\n\n', ' $', '$x', '{$x}', '\\par', '{\\begin{equation}}', '%', '{%\n', '{\\verb|', '{\\item}',
              '{\\footnote{a}}', '{\\\\}', '{\\LTinput{f1.tex}}',
              # lengths and numbers in odd shapes
-             '{.em}', '{,}', '{.}', '{1.}', '{-1em}', '{ .5em}', '{0,5\\textwidth}', '{1e3pt}', '{٣em}', '[.]{a}', '{a}[٣]']
-    NUMTAILS = {'{.em}', '{,}', '{.}', '{1.}', '{-1em}', '{ .5em}', '[.]{a}'}
+             '{.em}', '{,}', '{.}', '{1.}', '{-1em}', '{ .5em}', '{0,5\\textwidth}', '{1e3pt}', '{٣em}', '[.]{a}', '{a}[٣]',
+             # a parameter sign in front of characters that are digits for str.isdigit() only (superscripts, circled digits, fractions)
+             '{#\u00b2}', ' #\u00b3', '{a#\u2460b}', '[#\u2082]', '{#\u0663}', '#\u00bd']
+    NUMTAILS = {'{.em}', '{,}', '{.}', '{1.}', '{-1em}', '{ .5em}', '[.]{a}', '{#\u00b2}', ' #\u00b3', '{a#\u2460b}', '[#\u2082]', '#\u00bd'}
     rng = ctx.rng
     for nm in names:
         for t in tails:
